@@ -10,8 +10,9 @@ Members(SizeSet, ExtSet) == {[e |-> e, n |-> n] : e \in ExtSet, n \in SizeSet}
 AllShapes(maxN, SizeSet, ExtSet, tail) == {[m |-> s, tail |-> tail] : s \in SeqsUpTo(Members(SizeSet, ExtSet), maxN)}
 BlockSizes == {0, 1, B - 1, B, B + 1}           \* stand for 0, 1, 511, 512, 513 bytes
 
-ShapesQuick    == AllShapes(2, BlockSizes, {0}, 2 * B) \cup AllShapes(1, {1, B + 1}, {B}, 2 * B + 1)
-ShapesThorough == AllShapes(3, BlockSizes, {0}, 2 * B) \cup AllShapes(2, {0, 1, B + 1}, {0, B}, 2 * B + 1)
+ShapesQuick    == AllShapes(2, {0, 1, B + 1}, {0}, 2 * B) \cup AllShapes(1, {B - 1}, {0, B}, 2 * B + 1)
+ShapesThorough == AllShapes(3, {0, 1, B + 1}, {0}, 2 * B) \cup AllShapes(2, BlockSizes, {0}, 2 * B)
+                  \cup AllShapes(2, {0, B + 1}, {0, B}, 2 * B + 1)
 \* the shapes of the counterexample runs are those of real archives the driver builds:
 \* a directory with a 1-byte and a 513-byte file; a single 513-byte file
 ShapeCexTree   == {[m |-> <<[e |-> 0, n |-> 0], [e |-> 0, n |-> 1], [e |-> 0, n |-> B + 1]>>, tail |-> 2 * B + 1]}
